@@ -290,7 +290,7 @@ pub fn run(cx: &mut Ctx) {
         e.sets.push(empty_set(Some(String::new())));
         check(c, &e, "empty_string_labels");
     });
-    let step = if miri { 37 } else { 1 };
+    let step = if miri { 101 } else { 1 };
     for slot in (0..256).step_by(step) {
         cx.case("every_single_slot", |c| {
             c.sit("every_single_slot");
@@ -312,7 +312,7 @@ pub fn run(cx: &mut Ctx) {
             check(c, &b, "single_slot");
         });
     }
-    let n = cx.a.n(20_000, 300_000);
+    let n = cx.a.n(40_000, 400_000);
     for _ in 0..n {
         cx.case("random", |c| {
             super::poison::maybe(c, 5);
